@@ -197,7 +197,14 @@ class CFG:
             lctx = _Ctx(lambda: after, lambda: head.id, ctx.ret, ctx.exc, ctx.attr_raises)
             body = self._seq(st.body, head.id, lctx)
             self._edge(head.id, body, 't')
-            self._edge(head.id, els, 'f')
+            # an endless iterator (itertools.count(), cycle(), repeat(x)) is never exhausted: like `while 1`
+            it = st.iter
+            endless = isinstance(it, ast.Call) and ast.unparse(it.func) in (
+                'itertools.count', 'count', 'itertools.cycle', 'cycle') or \
+                (isinstance(it, ast.Call) and ast.unparse(it.func) in ('itertools.repeat', 'repeat') and
+                 len(it.args) == 1 and not it.keywords)
+            if not endless:
+                self._edge(head.id, els, 'f')
             for t in ctx.exc():
                 self._edge(head.id, t, 'x')
             return head.id
